@@ -82,21 +82,34 @@ class MDiagram:
         self._add(t, tensors[t])
 
     def add_edge(self, s: int, t: int, tensors: dict[int, MTensor]) -> None:
-        si = self.nodes.index(s) if s in self.nodes else None
-        ti = self.nodes.index(t) if t in self.nodes else None
+        """An edge that is rejected (ModelError) leaves the diagram exactly as it was."""
+        nodes, ucov, ucon = list(self.nodes), [list(x) for x in self.ucov], [list(x) for x in self.ucon]
+        flag = False
+
+        def add(x):
+            nodes.append(x)
+            ucov.append(list(tensors[x].cov))
+            ucon.append(list(tensors[x].con))
+            return len(nodes) - 1
+
+        si = nodes.index(s) if s in nodes else None
+        ti = nodes.index(t) if t in nodes else None
         if si is None:
-            si = self._add(s, tensors[s])
+            si = add(s)
             if t == s:
                 ti = si
-                self.flags.add("self-edge-on-unregistered-node")
+                flag = True
         if ti is None:
-            ti = self._add(t, tensors[t])
-        if not self.ucov[si] or not self.ucon[ti]:
+            ti = add(t)
+        if not ucov[si] or not ucon[ti]:
             raise ModelError("no indices left")
-        i = self.ucov[si].pop(0)
-        j = self.ucon[ti].pop(0)
+        i = ucov[si].pop(0)
+        j = ucon[ti].pop(0)
         if tensors[s].shape[i] != tensors[t].shape[j]:
             raise ModelError("dimension mismatch")
+        self.nodes, self.ucov, self.ucon = nodes, ucov, ucon
+        if flag:
+            self.flags.add("self-edge-on-unregistered-node")
         self.edges.append((si, ti, i, j))
 
     def size(self, tensors) -> int:
@@ -506,7 +519,7 @@ class ProgGen:
                 del self.diagrams[d_id]   # too big for the exact model: never evaluated again
                 st["retire"] = True
         except ModelError:
-            del self.diagrams[d_id]       # add_edge is not failure-atomic (DESIGN N1): diagram retired
+            pass                          # a rejected edge leaves the diagram as it was (since /repo ee8c085)
         return st
 
     def generate(self) -> dict:
@@ -638,8 +651,7 @@ def expectations(case: dict, state: dict | None = None) -> dict[int, tuple]:
                         if st.get("retire"):
                             del ds[st["d"]]
                     except ModelError:
-                        del ds[st["d"]]
-                        exp[i] = ("error",)
+                        exp[i] = ("error",)   # the diagram stays usable and unchanged
                 elif op == "self_edge_new":
                     dd = ds.pop(st["d"])
                     if st["t"] in dd.nodes:
@@ -890,7 +902,7 @@ class Exec:
         is_exc = isinstance(r, BaseException)
         if e[0] == "error":
             self.stats["predicted_errors"] = self.stats.get("predicted_errors", 0) + 1
-            if op in ("add_edge", "self_edge_new"):
+            if op == "self_edge_new":
                 D.pop(st["d"], None)
             if not isinstance(r, TensorComputationError):
                 return mk_violation(st, "missing-error", "model predicts TensorComputationError (no index left / "
